@@ -230,6 +230,9 @@ pub fn to_coins(cs: &[(String, u128)]) -> Vec<Coin> {
 }
 
 pub fn node_binary(n: &Node) -> Binary {
+    if n.empty_msg {
+        return Binary::default();
+    }
     Binary::new(serde_json::to_vec(n).expect("node serialises"))
 }
 
